@@ -141,6 +141,11 @@ Proof. exact static_select_other_args. Qed.
 Example C05_witness : merge_level (fun _ => true) w_cats [] w_keys = RErr EConflict [w_x].
 Proof. exact new_model_witness. Qed.
 
+(** colliding with an existing key is an error whatever the value of that key is — the empty string included *)
+Theorem C05_collision_any_value : forall cats (v : ival),
+  merge_level (fun _ => true) cats [] [(w_x, v); (w_x_one, Leaf 1); (w_x_other, Leaf 2)] = RErr ECollide [w_x].
+Proof. exact collision_any_value. Qed.
+
 (** the algorithm before the repair (inner map keyed by the form only) merges the ordinal forms and silently drops
     the cardinal `x_one`; spec_C05 is false on its output *)
 Theorem C05_old_refuted :
